@@ -376,10 +376,17 @@ def _build_cds(tspec, parent, guid=None):
                        guid=GG._uuid(guid), parent_or_seq_chunk_parent=parent)
 
 
+_INTFORM = [None]
+_SEQNAME = ["chr1"]     # the name of the chromosome Parent of the current case: a str or (seq_chunk_to_parent documents Union[UUID, str]) a UUID
+
+
 def _parent(genome, window=None):
     if window is None:
-        return GG.build_parent({"mode": "chrom", "genome": genome, "seqname": "chr1"})
-    return GG.build_parent({"mode": "chunk", "genome": genome, "seqname": "chr1", "window": list(window)})
+        return GG.build_parent({"mode": "chrom", "genome": genome, "seqname": _SEQNAME[0]})
+    w = list(window)
+    if _INTFORM[0] is not None:     # the chunk bounds as numpy integers (what a table of windows read with numpy / pandas hands over)
+        w = [_INTFORM[0](w[0]), _INTFORM[0](w[1])]
+    return GG.build_parent({"mode": "chunk", "genome": genome, "seqname": _SEQNAME[0], "window": w})
 
 
 def _questions(kind, obj, extra_windows=()):
@@ -945,7 +952,7 @@ def run_tx_case(case, ctx):
 def _minus_chunk_parent(genome, cs, ce):
     from inscripta.biocantor.io.parser import seq_chunk_to_parent
 
-    return seq_chunk_to_parent(SM.revcomp(genome[cs:ce]), "chr1", cs, ce, strand=GG._strand("-"))
+    return seq_chunk_to_parent(SM.revcomp(genome[cs:ce]), _SEQNAME[0], cs, ce, strand=GG._strand("-"))
 
 
 def check_minus_chunk(ctx, label, ts, fs, genome, cs, ce, exons, strand, M, whole_answers, guidmode, scan_wins):
@@ -1207,6 +1214,14 @@ def _check_query(ctx, label, source, WG, WF, spec, genome, qs, qe, mode, how, co
 
 
 def run_case(case, ctx):
+    _SEQNAME[0] = uuid.UUID(int=(case.get("gseed", 0) * 2654435761) % (1 << 128)) if case.get("gseed", 0) % 5 == 0 else "chr1"
+    _INTFORM[0] = None
+    if case.get("gseed", 0) % 7 in (2, 3):
+        import numpy as np
+
+        # signed 64-bit only: unsigned numpy integers wrap around on `x - 1` by numpy's own rules (the unchanged library then loses
+        # minus-strand lifts for a window starting at 0) - they are not claimed as a legal spelling of an int
+        _INTFORM[0] = np.int64
     if case["kind"] == "tx":
         return run_tx_case(case, ctx)
     if case["kind"] == "coll":
